@@ -35,6 +35,10 @@ MUTANTS = [
                         continue
                     context.handle_error(error)
         return result"""}]},
+    {"name": "revert-2bff3df-dataclass-defer_default", "revert": "2bff3df", "props": ["C05"]},
+    {"name": "revert-b56443d-mode-precedence", "revert": "b56443d", "props": ["C05"]},
+    {"name": "revert-dd09bd5-dependency-names", "revert": "dd09bd5", "props": ["C05"]},
+    {"name": "c05-no_output-value-left-in-mapping", "props": ["C05"], "edits": [{"file": "utype/parser/cls.py", "old": "                if field.is_no_output(values[key], options=options):\n                    values.pop(key)", "new": "                if field.is_no_output(values[key], options=options) and value is not None:\n                    values.pop(key)"}]},
     # ---- C01 ------------------------------------------------------------------------------
     {"name": "c01-seq-first-element-unconverted", "props": ["C01"], "edits": [{"file": R, "old": """                try:
                     result.append(
